@@ -105,18 +105,42 @@ func (s *LineFilterIpReader) hitExpr(expr influxql.Expr) bool {
 	case *influxql.BinaryExpr:
 		switch n.Op {
 		case influxql.EQ:
+			if !s.isIndexColumn(n) {
+				return true
+			}
 			return s.hitIp(n)
 		case influxql.AND:
 			return s.hitExpr(n.LHS) && s.hitExpr(n.RHS)
 		case influxql.OR:
 			return s.hitExpr(n.LHS) || s.hitExpr(n.RHS)
 		case influxql.IPINRANGE:
+			if !s.isIndexColumn(n) {
+				return true
+			}
 			return s.hitIpSubnet(n)
 		}
 	default:
 		return true
 	}
 	return true
+}
+
+// isIndexColumn reports whether the bloom filter file of this reader can answer the atom: it holds the addresses of the
+// columns named in splitMap only, an atom on any other column is unknown (may match). An empty splitMap names no column;
+// every atom is then answered from the file, as before.
+func (s *LineFilterIpReader) isIndexColumn(n *influxql.BinaryExpr) bool {
+	if len(s.splitMap) == 0 {
+		return true
+	}
+	ref, ok := n.LHS.(*influxql.VarRef)
+	if !ok {
+		return false
+	}
+	if _, ok = n.RHS.(*influxql.StringLiteral); !ok {
+		return false
+	}
+	_, ok = s.splitMap[ref.Val]
+	return ok
 }
 
 func (s *LineFilterIpReader) Close() {
